@@ -147,9 +147,7 @@ def _casadi_eval(f, ins_float):
         sp = f.sparsity_in(i)
         dm = ca.DM(sp, ins_float[i]) if sp.nnz() != sp.numel() else ca.DM(ins_float[i]).reshape((sp.size1(), sp.size2()))
         args.append(dm)
-    res = f(*args)
-    if f.n_out() == 1 and not isinstance(res, (list, tuple)):
-        res = [res]
+    res = f.call(args)
     outs = []
     for r in res:
         r = ca.DM(r)
